@@ -617,8 +617,12 @@ func TestCollectionsOutliveTheirBlock(t *testing.T) {
 			gen.NAssign("=", []*gen.Node{gen.NIndex(id("z1"), i(0))}, []*gen.Node{i(-1)}), gen.NAssign("=", []*gen.Node{gen.NIndex(id("z2"), i(0))}, []*gen.Node{i(-2)})}
 	}
 	blocks := []func(body []*gen.Node) *gen.Node{
-		func(b []*gen.Node) *gen.Node { return gen.NIf([]*gen.Node{gen.NBool(true)}, [][]*gen.Node{b}, nil, false) },
-		func(b []*gen.Node) *gen.Node { return gen.NIf([]*gen.Node{gen.NBool(false)}, [][]*gen.Node{{gen.NSet("u", i(0))}}, b, true) },
+		func(b []*gen.Node) *gen.Node {
+			return gen.NIf([]*gen.Node{gen.NBool(true)}, [][]*gen.Node{b}, nil, false)
+		},
+		func(b []*gen.Node) *gen.Node {
+			return gen.NIf([]*gen.Node{gen.NBool(false)}, [][]*gen.Node{{gen.NSet("u", i(0))}}, b, true)
+		},
 		func(b []*gen.Node) *gen.Node { return gen.NForIn("it", gen.NList(i(0), i(1), i(2)), b) },
 		func(b []*gen.Node) *gen.Node {
 			return gen.NFor(gen.NSet("it", i(0)), gen.NBin("<", id("it"), i(3)), gen.NSet("it", gen.NBin("+", id("it"), i(1))), b)
